@@ -123,6 +123,8 @@ type Rec struct {
 	findings  []Finding
 	curCase   any
 	violTotal atomic.Int64
+	opt       Options
+	childSeq  atomic.Int64
 }
 
 func newRec(s *Spec, tier string, seed int64, findings []Finding) *Rec {
@@ -548,6 +550,7 @@ func Main(s *Spec, o Options) int {
 		return 2
 	}
 	rec := newRec(s, o.Tier, o.Seed, findings)
+	rec.opt = o
 
 	if o.ChildIn != "" {
 		return childMain(s, o, rec)
@@ -636,6 +639,19 @@ func replayMain(s *Spec, o Options, rec *Rec) int {
 	}
 	fmt.Printf("VIOLATION property=%s replay=%s\n", s.ID, o.Replay)
 	return 1
+}
+
+// InChild reports whether this process is a child started by the isolated mode or by RunInFreshProcess.
+func (r *Rec) InChild() bool { return r.opt.ChildIn != "" }
+
+// RunInFreshProcess executes the given cases of the same spec in ONE new process of this binary and merges what it
+// observed into r (used for properties of a process's first moments, e.g. concurrent first use). A crash of the child is
+// reported as a process-crash violation of the first case.
+func (r *Rec) RunInFreshProcess(cases []any) {
+	dir := filepath.Join(r.opt.VerifDir, ".build", "runs", fmt.Sprintf("%s-fresh-%d", r.spec.ID, os.Getpid()))
+	os.MkdirAll(dir, 0o755)
+	runBatch(r.spec, r.opt, r, dir, int(r.childSeq.Add(1)), cases)
+	os.Remove(dir) // succeeds once the last batch has cleaned up
 }
 
 // ---- isolated (child process) mode ----
